@@ -236,10 +236,10 @@ func R13EventLog(c *Ctx) {
 	exOK := false
 	for _, an := range eb.AnonFuncs {
 		EachCall(an, func(call ssa.CallInstruction) {
-			if CalleeName(call) != "(*Havoc/cmd/server.Teamserver).SendEvent" {
+			if !sendsEvent(call) {
 				return
 			}
-			for _, f := range FactsAt(call.Block()) {
+			for _, f := range FactsAtDeep(call.Block()) {
 				bo, ok := f.Cond.(*ssa.BinOp)
 				if !ok || !((bo.Op == token.NEQ && f.Truth) || (bo.Op == token.EQL && !f.Truth)) {
 					continue
@@ -433,4 +433,29 @@ func R13Regenerated(c *Ctx) {
 			c.R.Bad(rule, FuncShort(ctor), construct, c.pos(ctor.Pos()), "the replay regenerates this event from live state but its constructor does not mark it one-time: EventAppend retains every instance and a later operator receives the session twice — and still as new after it died")
 		}
 	}
+}
+
+// sendsEvent: the call is Teamserver.SendEvent, or a helper of cmd/server that passes one of its parameters on as
+// the destination of a SendEvent call.
+func sendsEvent(call ssa.CallInstruction) bool {
+	if CalleeName(call) == "(*Havoc/cmd/server.Teamserver).SendEvent" {
+		return true
+	}
+	h := call.Common().StaticCallee()
+	if h == nil || h.Blocks == nil || FuncPkgPathOf(h) != PkgServer {
+		return false
+	}
+	found := false
+	EachCall(h, func(hc ssa.CallInstruction) {
+		if CalleeName(hc) != "(*Havoc/cmd/server.Teamserver).SendEvent" {
+			return
+		}
+		args := CallArgs(hc)
+		if len(args) == 2 {
+			if _, isP := args[0].(*ssa.Parameter); isP {
+				found = true
+			}
+		}
+	})
+	return found
 }
